@@ -545,7 +545,7 @@ class C06(Spec):
 
     def search_cases(self, ctx, boost):
         cur = [H([call(src, safeMode=0, reset=True, cb=True)]) for src in self.CURATED]
-        return cur + self._cases(ctx, sizes(ctx, 1500, 60000) * (3 if boost else 1), 'S')
+        return cur + gen.injection_cases(POLICY_MODES, SENT) + self._cases(ctx, sizes(ctx, 1500, 60000) * (3 if boost else 1), 'S')
 
     def oracle(self, ctx, case, impl, variants=()):
         if not all_ok(impl):
@@ -763,11 +763,16 @@ class C14(Spec):
         m = rng.choice([None, 0, 0, 1, 3, 5, 9, 15])
         # an in-document .reset element drops the callback for the rest of that call by design: not generated here
         A = gen.soup_doc(rng, 7, closed=True).replace(".reset=", ".reset =x")
+        if rng.random() < 0.3:
+            # pending Block Attributes carry across calls exactly as they carry across blocks
+            A += '\n\n' + '\n'.join(rng.sample(['.-spans', '.+skip', '.kcls', '.#idz', '."c:d"', '.-macros'], rng.randint(1, 2)))
         B = gen.soup_doc(rng, 7, no_list_start=True).replace(".reset=", ".reset =x")
+        if rng.random() < 0.3:
+            B = rng.choice(['*em* start', '{--} *x*', '# Head *h*', '``\ncode\n``']) + '\n\n' + B
         o = dict(safeMode=m, reset=True, cb=True)
         parts = H([call(A, **o), call(B, cb=True)], state=True)
         whole = H([call(A + '\n\n' + B, **o)], state=True)
-        probe = H([call(A + '\n\nZZZ9', **o)])
+        probe = H([call(A + '\n\nZZZ9\n\nYYY8', **o)])
         parts['variants'] = [whole, probe]
         return parts
 
@@ -789,8 +794,11 @@ class C14(Spec):
         A = case['calls'][0]['src']
         pa = impl['calls'][0]
         pr = variants[1]['calls'][0]
-        # precondition: A is closed -- a following paragraph is rendered on its own, after exactly A's rendering
-        if O.squeeze(pr['html']) != O.squeeze(pa['html'] + '<p>ZZZ9</p>'):
+        # precondition: A is closed -- following paragraphs are rendered on their own, after exactly A's rendering
+        sq = O.squeeze(pr['html'])
+        if not sq.startswith(O.squeeze(pa['html'])) or not sq.endswith('<p>YYY8</p>'):
+            return None
+        if re.search(r'ZZZ9.*<(?!/?p>)[^<]*YYY8', sq, re.S):
             return None
         if any('unterminated' in m[1] for m in pa['log']):
             return None
@@ -955,5 +963,539 @@ class C16(Spec):
         return None
 
 
-PROPS = {'C01': C01(), 'C03': C03(), 'C04': C04(), 'C05': C05(), 'C06': C06(), 'C13': C13(), 'C14': C14(), 'C15': C15(),
-         'C16': C16(), 'C20': C20()}
+
+import grammar as G
+
+
+class ExpectSpec(Spec):
+    """properties whose oracle is 'output equals the HTML predicted from the generator's AST'"""
+    state_keys = []
+    cls_prefix = 'Cxx'
+
+    def project(self, call):
+        return call.get('html')
+
+    def gen_case(self, rng):
+        raise NotImplementedError
+
+    def streams(self, ctx):
+        rng = ctx.rng('G')
+        return [corpus_stream(ctx), ('G', [strip_case(self.gen_case(rng)) for _ in range(sizes(ctx, 500, 25000))])]
+
+    def search_cases(self, ctx, boost):
+        rng = ctx.rng('S')
+        return [self.gen_case(rng) for _ in range(sizes(ctx, 1200, 40000) * (3 if boost else 1))] + self.curated()
+
+    def curated(self):
+        return []
+
+    def oracle(self, ctx, case, impl, variants=()):
+        if not all_ok(impl):
+            return None
+        exp = case['meta'].get('expect')
+        if exp is None:
+            return None
+        got = impl['calls'][-1]['html']
+        if O.squeeze(got) != O.squeeze(exp):
+            return (self.cls_prefix + '/' + case['meta'].get('kind', 'unexpected-html'),
+                    'source %r renders %r, the generator predicts %r' % (case['calls'][-1]['src'][:200], got[:300], exp[:300]))
+        return None
+
+
+class C07(ExpectSpec):
+    level_text = ('Partial. Proved: C07_plain (a paragraph text over the plain alphabet -- the code points that, by the verified first-set '
+                  'analysis of the *generated* replacement, quote and placeholder regexes, can start no match -- renders to exactly its escape, '
+                  'for text of any length), C07_frozen_escape (an escaped or matched replacement becomes a finished fragment whose text is not '
+                  'scanned again: fragReplacements never searches done fragments), plus the escape lemmas. The full product grammar (quotes '
+                  'x replacements x adjacency) is decided by the generator-predicted-HTML oracle and full-HTML correspondence, not proved.')
+    rule = ('paragraphs from an inline grammar (words, isolated specials, 7 built-in + 2 defined quotes nested by differing delimiter to '
+            'depth 3, the replacement forms with URL/caption words) in modes 0,1,4,9; expected HTML built with the AST; '
+            'non-trivial = contains a quote or replacement')
+    cls_prefix = 'C07'
+
+    def gen_case(self, rng):
+        mode = rng.choice([0, 0, 1, 4, 9, 12])
+        src, html, has_defs = G.inline_paragraph(rng, extra_quotes=(mode == 0 and rng.random() < 0.3))
+        c = H([call(src, safeMode=mode if not has_defs else 0, reset=True, cb=True)])
+        c['meta'] = {'expect': html, 'kind': 'inline'}
+        return c
+
+
+class C08(ExpectSpec):
+    level_text = ('Partial. Proved: C08_in_order (the block loop emits the rendering of the first block followed by the rendering of the '
+                  'rest from the state the first block left: doc_loop unfolding lemmas for each of the three dispatch branches), C08_blank_skip '
+                  '(leading blank lines are skipped), C08_tables (names, tags and container/verbatim expansion of the generated block table). '
+                  'The per-kind functional equations need regex completeness and are decided by the block-grammar oracle and correspondence.')
+    rule = ('documents from a block grammar (paragraph, header, fenced code, indented, quote paragraph, quote/division blocks nested to depth 3 '
+            'with distinct delimiters and optional class names, HTML block, comments, definitions; 1-2 blank lines) in every safe mode; '
+            'expected HTML predicted from the block list; non-trivial = more than one block kind')
+    cls_prefix = 'C08'
+
+    def gen_case(self, rng):
+        mode = rng.choice([0, 0, 1, 2, 3, 5, 8, 15])
+        src, html = G.block_document(rng, mode)
+        c = H([call(src, safeMode=mode, reset=True, htmlReplacement=SENT, cb=True)])
+        c['meta'] = {'expect': html, 'kind': 'blocks'}
+        return c
+
+
+class C10(ExpectSpec):
+    level_text = ('Partial. Proved: C10_stack (every list opened by renderList pushes its marker and pops it when it closes; the id stack of '
+                  'lists.render starts empty) and the marker facts of the generated list table (13 markers, three list kinds with their tags). '
+                  'The nesting algorithm against a tree specification is decided by the list-tree oracle and correspondence.')
+    rule = ('list trees over the 13 markers, depth <= 4, mixed kinds, 1-3 text lines per item, optional attached code/quote/division/indented '
+            'block, optional single blank lines between items, followed by a paragraph or header; expected HTML from the tree; '
+            'non-trivial = nesting depth >= 2 or an attached block')
+    cls_prefix = 'C10'
+
+    def gen_case(self, rng):
+        src, html = G.list_document(rng)
+        c = H([call(src, safeMode=rng.choice([0, 1]), reset=True, cb=True)])
+        c['meta'] = {'expect': html, 'kind': 'list-tree'}
+        return c
+
+
+class C11(Spec):
+    level_text = ('Table algebra full, substitution partial. Proved: C11_setValue_spec (setValue is the table function setValue_table and '
+                  'touches nothing else), C11_existential, C11_last_write_wins, C11_other_names_untouched, C11_define_new, '
+                  'C11_blank_stays_blank, C11_blank_initially, C11_no_brace_identity (text without a brace or backslash is returned unchanged '
+                  'by macro expansion, with no diagnostic -- via the verified first-set analysis of the generated macro regexes). '
+                  'Invocation = substitution on documents is decided by the hand-substitution oracle and correspondence.')
+    rule = ('documents with 1-4 macro definitions (single/multi-line, values referring to earlier macros, redefinitions, existential) and '
+            'invocations of every form at line start and mid-line in paragraphs, headers, list items; rendered against the hand-substituted '
+            'document; non-trivial = at least one defined macro is invoked')
+    state_keys = ['macros']
+
+    def project(self, call):
+        return (call.get('html'), call.get('log'))
+
+    def gen_case(self, rng):
+        src, sub, defs = G.macro_document(rng)
+        c = H([call(src, safeMode=0, reset=True, cb=True)], state=True)
+        c['variants'] = [H([call(sub, safeMode=0, reset=True, cb=True)])]
+        return c
+
+    def streams(self, ctx):
+        rng = ctx.rng('G')
+        return [corpus_stream(ctx), ('G', [strip_case(dict(self.gen_case(rng), variants=[])) for _ in range(sizes(ctx, 500, 25000))])]
+
+    def search_cases(self, ctx, boost):
+        rng = ctx.rng('S')
+        return [self.gen_case(rng) for _ in range(sizes(ctx, 1200, 40000) * (3 if boost else 1))]
+
+    def oracle(self, ctx, case, impl, variants=()):
+        if not variants or not all_ok(impl) or not all_ok(variants[0]):
+            return None
+        a = impl['calls'][0]
+        b = variants[0]['calls'][0]
+        if O.squeeze(a['html']) != O.squeeze(b['html']):
+            return ('C11/substitution', 'macro document %r renders %r; hand-substituted %r renders %r'
+                    % (case['calls'][0]['src'][:200], a['html'][:200], case['variants'][0]['calls'][0]['src'][:200], b['html'][:200]))
+        # undefined invocations are reported, defined ones are not
+        for m in a['log']:
+            if m[1].startswith('undefined macro') and '{undef' not in m[1]:
+                return ('C11/spurious-undefined', m[1][:100])
+        return None
+
+
+class C09(ExpectSpec):
+    level_text = ('Partial. Proved: C09_code_blocks_verbatim (the code and indented definitions of the generated table expand specials only), '
+                  'C09_verbatim_is_escape (under such an expansion replaceInline is exactly escaping, whatever the content), '
+                  'C09_code_quotes_no_spans, C09_escape_only. That the fence/quote delimiters are found where intended (regex completeness) '
+                  'is decided by the escaped-content oracle and correspondence.')
+    rule = ('fenced blocks with adversarial content lines (every markup form) not equal to the fence, inline code with content from the '
+            "property's domain, indented paragraphs; all 16 safe modes; expected = escaped content; non-trivial = content contains markup")
+    cls_prefix = 'C09'
+    LIST_RES = [re.compile(r'^\\?\s*(-|\+|\*{1,4})\s+(.*)$'), re.compile(r'^\\?\s*(?:\d*)(\.{1,4})\s+(.*)$'),
+                re.compile(r'^\\?\s*(.*[^:])(:{2,4})(|\s+.*)$')]
+
+    def gen_case(self, rng):
+        mode = rng.randint(0, 15)
+        kind = rng.choice(['fenced', 'fenced', 'inline', 'indented'])
+        if kind == 'fenced':
+            fence = rng.choice(['``', '```', '--', '---', '`````'])
+            lines = []
+            for _ in range(rng.randint(1, 5)):
+                l = rng.choice(G.CODE_CONTENT + gen.LINES + [gen.inline_text(rng)])
+                l = l.replace('\r', '').replace('\n', ' ')
+                l = re.sub('[\x00-\x02]', ' ', l)
+                if l == fence:
+                    l = l + 'x'
+                lines.append(l)
+            src = fence + '\n' + '\n'.join(lines) + '\n' + fence
+            exp = '<pre><code>' + O.escape('\n'.join(lines)) + '</code></pre>'
+        elif kind == 'inline':
+            for _ in range(20):
+                c = gen.inline_text(rng, rng.randint(1, 3)).strip()
+                c = re.sub('[\x00-\x02\r\n]', ' ', c).strip()
+                if c and '`' not in c and '{' not in c and '::' not in c and not c.endswith('\\'):
+                    break
+            else:
+                c = 'x'
+            src = 'pre `' + c + '` post'
+            exp = '<p>pre <code>' + O.escape(c) + '</code> post</p>'
+        else:
+            lines = []
+            for _ in range(rng.randint(1, 4)):
+                l = gen.inline_text(rng, rng.randint(1, 3)).strip() or 'x'
+                l = re.sub('[\x00-\x02\r\n]', ' ', l).strip() or 'x'
+                lines.append(l)
+            if any(r.match('  ' + lines[0]) for r in self.LIST_RES):
+                lines[0] = 'word ' + lines[0].replace('::', ':')
+                if any(r.match('  ' + lines[0]) for r in self.LIST_RES):
+                    lines[0] = 'word'
+            src = '\n'.join('  ' + l for l in lines)
+            exp = '<pre><code>' + O.escape('\n'.join(lines)) + '</code></pre>'
+        c = H([call(src, safeMode=mode, reset=True, cb=True)])
+        c['meta'] = {'expect': exp, 'kind': kind}
+        return c
+
+
+class C12(Spec):
+    level_text = ('Partial. Proved: C12_consume (injection into a non-empty tag clears every pending class, id, css and attribute), '
+                  'C12_blank_tag_keeps, C12_bit4 (with bit 4 a Block Attributes line is the identity on the session), C12_bit4_guard, '
+                  'C12_nz_no_raw_attrs (in any non-zero mode a document never accumulates raw HTML attributes -- frame theorem instance over the '
+                  'generated guards). "First tag of the next block only" over block sequences and the one-block scope of options are decided '
+                  'by the attribute oracle and correspondence.')
+    rule = ('1-3 attribute lines (classes/id/css/attributes/options) . optional comments/blank lines . target block of 8 kinds . further blocks; '
+            '16 safe modes; attributes must sit on the first tag of the target and nowhere later; non-trivial = an attribute is emitted')
+    state_keys = ['pending', 'ids']
+
+    def project(self, call):
+        return call.get('html')
+
+    TARGETS = {'para': ('some text', '<p'), 'header': ('## Head', '<h2'), 'list': ('- item one\n- item two', '<ul'),
+               'code': ('``\ncode\n``', '<pre'), 'division': ('..\ninner\n..', '<div'), 'quote': ('""\ninner\n""', '<blockquote'),
+               'indented': ('  indented', '<pre'), 'qpara': ('> quoted', '<blockquote'), 'dl': ('term:: def', '<dl')}
+
+    def gen_case(self, rng):
+        mode = rng.randint(0, 15)
+        parts = {'cls': rng.random() < 0.7, 'id': rng.random() < 0.4, 'css': rng.random() < 0.4, 'raw': rng.random() < 0.3}
+        opt = rng.choice([None, None, '+skip', '-spans', '-macros'])
+        lines = []
+        attr_lines = []
+        if parts['cls']:
+            attr_lines.append('.kx1 ky2')
+        if parts['id']:
+            attr_lines.append('.#idq7')
+        if parts['css']:
+            attr_lines.append('."color:red"')
+        if parts['raw']:
+            attr_lines.append('.[title="t9"]')
+        if opt:
+            attr_lines.append('.' + opt)
+        if not attr_lines:
+            attr_lines = ['.kx1']
+            parts['cls'] = True
+        rng.shuffle(attr_lines)
+        for a in attr_lines:
+            lines.append(a)
+            if rng.random() < 0.3:
+                lines.append(rng.choice(['', '// comment', "{zz}='v'"]))
+        kind = rng.choice(list(self.TARGETS))
+        tsrc, ttag = self.TARGETS[kind]
+        if opt == '-spans':
+            tsrc = {'para': '*em text*', 'qpara': '> *em text*'}.get(kind, tsrc)
+        lines.append(tsrc)
+        lines += ['', '', 'after *one*', '', '## After two', '', '- after three']
+        c = H([call('\n'.join(lines), safeMode=mode, reset=True, cb=True)], state=True)
+        c['meta'] = {'mode': mode, 'parts': parts, 'opt': opt, 'kind': kind, 'tag': ttag}
+        return c
+
+    def streams(self, ctx):
+        rng = ctx.rng('G')
+        return [corpus_stream(ctx), ('G', [strip_case(self.gen_case(rng)) for _ in range(sizes(ctx, 600, 25000))])]
+
+    def search_cases(self, ctx, boost):
+        rng = ctx.rng('S')
+        return [self.gen_case(rng) for _ in range(sizes(ctx, 1500, 40000) * (3 if boost else 1))]
+
+    def oracle(self, ctx, case, impl, variants=()):
+        if not all_ok(impl):
+            return None
+        md = case['meta']
+        mode, parts, opt, kind = md['mode'], md['parts'], md['opt'], md['kind']
+        html = impl['calls'][0]['html']
+        tags = [m.group(0) for m in re.finditer(r'<[a-zA-Z][^<>]*>', html)]
+        marks = {'cls': 'kx1 ky2', 'id': 'id="idq7"', 'css': 'color:red', 'raw': 'title="t9"'}
+        ignored = bool(mode & 4)
+        skipped = (opt == '+skip' and not ignored and kind in ('para', 'code', 'division', 'quote', 'indented', 'qpara'))
+        if ignored:
+            for k, mk in marks.items():
+                if mk in html and not (k == 'raw'):
+                    return ('C12/bit4-not-ignored', 'mode %d: %r appears in %r' % (mode, mk, html[:200]))
+            return None
+        if not tags:
+            return None
+        first = tags[0]
+        tail = ''.join(tags[1:])
+        for k, mk in marks.items():
+            if not parts[k]:
+                continue
+            if k == 'raw' and mode != 0:
+                if mk in html:
+                    return ('C12/raw-attrs-in-safe-mode', 'mode %d: %r in %r' % (mode, mk, html[:200]))
+                continue
+            if skipped:
+                continue
+            if mk not in first:
+                return ('C12/not-on-first-tag:' + kind, 'mode %d: %r not on the first tag %r of %r' % (mode, mk, first, html[:200]))
+            if mk in tail:
+                return ('C12/applied-twice:' + kind, 'mode %d: %r also on a later tag in %r' % (mode, mk, html[:300]))
+        if not skipped and not first.startswith(md['tag']):
+            return None
+        # block options affect that one block only
+        if '<em>one</em>' not in html:
+            return ('C12/option-leaks:' + str(opt) + ':' + kind, 'mode %d: the following paragraph lost its markup: %r' % (mode, html[:300]))
+        if '<h2>After two</h2>' not in html or 'after three' not in html:
+            return ('C12/option-leaks:' + str(opt) + ':' + kind, 'mode %d: a following block is missing: %r' % (mode, html[:300]))
+        if opt == '+skip' and kind in ('para', 'code', 'division', 'quote', 'indented', 'qpara') and md['tag'] + '>' in html.split('after')[0] \
+                and kind != 'para':
+            return ('C12/skip-ignored:' + kind, 'mode %d: +skip did not skip the block: %r' % (mode, html[:200]))
+        return None
+
+
+class C17(Spec):
+    level_text = ('Partial. Proved: C17_repl_escape (an escaped replacement -- link, image, e-mail, URL, HTML tag, entity -- is rendered as its own '
+                  'escaped text minus the backslash, as a finished fragment), with a computed example over all inline kinds. Line-level '
+                  'escapes and quotes are decided by the literal-text oracle and correspondence; several element kinds violate the property on '
+                  'the unchanged code (known findings).')
+    rule = ('element kinds x generated instances x positions (line start, after text, in quotes, in list items) x 1-8 escaped elements, '
+            'modes 0 and 1; expected = the literal text; non-trivial = always (an element is present)')
+    state_keys = ['mode', 'quotes', 'repls', 'dblocks', 'macros']
+
+    def project(self, call):
+        return call.get('html')
+
+    INLINE = [('quote', '*em*'), ('quote', '**st**'), ('quote', '_u_'), ('quote', '`code`'), ('quote', '~~del~~'),
+              ('link', '[cap](http://a.b)'), ('link', '^[cap](u.html)'), ('link', '<http://a.b|cap>'), ('link', '<http://a.b>'),
+              ('image', '![alt](i.png)'), ('image', '<image:i.png|alt>'), ('image', '<image:i.png>'), ('email', '<j@k.lm>'),
+              ('email', '<j@k.lm|Joe>'), ('url', 'http://foo.com/x'), ('tag', '<b>'), ('tag', '</b>'), ('tag', '<!-- c -->'),
+              ('entity', '&amp;'), ('entity', '&#160;'), ('macro', '{mac}'), ('macro', '{mac|p}'), ('anchor', '<<#anc>>')]
+    LINE = [('header', '# Title'), ('header', '== Sub'), ('listitem', '- item'), ('listitem', '. numbered'), ('listitem', 'term:: def'),
+            ('comment', '// comment'), ('attributes', '.cls #id'), ('attributes', '.+skip'), ('macrodef', "{mac}='v2'"),
+            ('quotedef', "= = '<u>|</u>'"), ('repldef', "/foo/='bar'"), ('blockdef', "|code|='<pre>|</pre>'"), ('option', ".safeMode='1'"),
+            ('blockimage', '<image:i.png>'), ('blockanchor', '<<#anc>>'), ('delimiter', '..'), ('delimiter', '""'), ('delimiter', '``'),
+            ('delimiter', '/*'), ('quotepara', '> quoted'), ('htmlblock', '<div>'), ('indented?', None)]
+
+    def gen_case(self, rng):
+        mode = rng.choice([0, 1])
+        if rng.random() < 0.6:
+            n = rng.randint(1, 8)
+            items = [rng.choice(self.INLINE) for _ in range(n)]
+            pos = rng.choice(['start', 'after', 'quote', 'item'])
+            body = ' '.join('\\' + x for _, x in items)
+            lit = ' '.join(x for _, x in items)
+            if pos == 'start':
+                src, exp = body, '<p>' + O.escape(lit) + '</p>'
+            elif pos == 'after':
+                src, exp = 'text ' + body + ' end', '<p>text ' + O.escape(lit) + ' end</p>'
+            elif pos == 'quote':
+                if any(k == 'quote' and x[0] in '*' for k, x in items):
+                    src, exp = '~~x ' + body + ' y~~', '<p><del>x ' + O.escape(lit) + ' y</del></p>'
+                else:
+                    src, exp = '*x ' + body + ' y*', '<p><em>x ' + O.escape(lit) + ' y</em></p>'
+            else:
+                src, exp = '- ' + 'w ' + body, '<ul><li>w ' + O.escape(lit) + '</li></ul>'
+            kinds = sorted(set(k for k, _ in items))
+            src = "{mac}='MV'\n\n" + src
+            c = H([call(src, safeMode=0 if mode == 0 else 9, reset=True, cb=True)], state=True)
+            c['meta'] = {'expect': exp, 'kinds': kinds, 'line': False}
+            return c
+        k, x = rng.choice([e for e in self.LINE if e[1]])
+        src = '\\' + x + '\n\nafter'
+        exp = '<p>' + O.escape(x) + '</p>\n<p>after</p>'
+        c = H([call(src, safeMode=mode, reset=True, cb=True)], state=True)
+        c['meta'] = {'expect': exp, 'kinds': [k], 'line': True, 'elem': x}
+        return c
+
+    def streams(self, ctx):
+        rng = ctx.rng('G')
+        return [corpus_stream(ctx), ('G', [strip_case(self.gen_case(rng)) for _ in range(sizes(ctx, 500, 25000))])]
+
+    def search_cases(self, ctx, boost):
+        rng = ctx.rng('S')
+        out = [self.gen_case(rng) for _ in range(sizes(ctx, 1500, 40000) * (3 if boost else 1))]
+        for k, x in self.LINE:
+            if x:
+                for mode in (0, 1):
+                    c = H([call('\\' + x + '\n\nafter', safeMode=mode, reset=True, cb=True)], state=True)
+                    c['meta'] = {'expect': '<p>' + O.escape(x) + '</p>\n<p>after</p>', 'kinds': [k], 'line': True, 'elem': x}
+                    out.append(c)
+        return out
+
+    def oracle(self, ctx, case, impl, variants=()):
+        if not all_ok(impl):
+            return None
+        md = case['meta']
+        got = impl['calls'][0]['html']
+        if O.squeeze(got) != O.squeeze(md['expect']):
+            kinds = md['kinds']
+            kind = kinds[0] if len(kinds) == 1 else 'mixed-inline'
+            return ('C17/' + kind + (':' + md['elem'].split(' ')[0][:12] if md.get('line') else ''),
+                    'source %r renders %r, literal rendering is %r' % (case['calls'][0]['src'][:200], got[:200], md['expect'][:200]))
+        st = impl.get('state')
+        if st and md.get('line'):
+            if st['mode'] != case['calls'][0]['safeMode']:
+                return ('C17/option-executed', 'safeMode became %r' % st['mode'])
+            if any(q[0] == '=' for q in st['quotes']) or any(r[0] == 'foo' for r in st['repls']) or \
+                    any(d[0] == 'code' and d[1] == '<pre>' for d in st['dblocks']) or any(m == ['mac', 'v2'] for m in st['macros']):
+                return ('C17/definition-executed', 'an escaped definition took effect')
+        return None
+
+
+class C19(Spec):
+    level_text = ('Partial. Proved: C19_lift_only_logs (every inline computation run by the block layer changes nothing but the diagnostic log), '
+                  'C19_illegal_mode_reported / C19_illegal_reset_reported (exactly one diagnostic naming the value), C19_unknown_block_option '
+                  '(Expand.parse reports every token that is not a block option and changes nothing for it), and the guard facts. Completeness '
+                  'for the listed fault classes on documents is decided by the fault-injection oracle and transcript correspondence.')
+    rule = ('well-formed generated documents (zero diagnostics expected) and single-fault mutants (closing delimiter removed, macro name '
+            'misspelt, option value corrupted, block option / block name unknown, pattern ill-formed); also rendered without callback; '
+            'non-trivial = the mutant carries a fault')
+    state_keys = []
+
+    FAULTS = [('unterminated code block', '``\ncode'), ('unterminated comment block', '/*\ncomment'),
+              ('unterminated division block', '..\ndiv'), ('unterminated quote block', '""\nquote'),
+              ('undefined macro', 'text {nosuch} more'), ('undefined macro', '{nosuch|a|b}'),
+              ('illegal safeMode API option value', ".safeMode='99'"), ('illegal safeMode API option value', ".safeMode='x'"),
+              ('illegal API option name', ".bogus='1'"), ('illegal reset API option value', ".reset='maybe'"),
+              ('illegal block option', '.+bogus\npara'), ('illegal block option', "|code|='+nonsense'"),
+              ('illegal delimited block name', "|bogus|='<a>|</a>'"), ('illegal delimited block definition', "|code|='<a>'"),
+              ('illegal replacement regular expression', "/(/='x'"), ('illegal macro regular expression', "{mm}='v'\n{mm=[}"),
+              ('-specials block option not valid in safeMode', None), ('duplicate', ".#dup\na\n\n.#dup\nb"),
+              ('the predefined blank', "{--}='x'"), ('undefined replacement group', "/zq/='$3'\nzq")]
+
+    def project(self, call):
+        return (call.get('html'), call.get('log'))
+
+    def gen_case(self, rng):
+        mode = 0
+        src, _ = G.block_document(rng, 0)
+        src = re.sub(r'\{(m|undefined)[^}]*\}', 'M', src)
+        if rng.random() < 0.5:
+            c = H([call(src, safeMode=mode, reset=True, cb=True)])
+            c['variants'] = [H([call(src, safeMode=mode, reset=True, cb=False)])]
+            c['meta'] = {'fault': None}
+            return c
+        f = rng.choice([x for x in self.FAULTS if x[1]])
+        full = src + '\n\n' + f[1]
+        c = H([call(full, safeMode=mode, reset=True, cb=True)])
+        c['variants'] = [H([call(full, safeMode=mode, reset=True, cb=False)])]
+        c['meta'] = {'fault': f[0]}
+        return c
+
+    def streams(self, ctx):
+        rng = ctx.rng('G')
+        cs = []
+        for _ in range(sizes(ctx, 500, 25000)):
+            c = self.gen_case(rng)
+            cs.append(strip_case(dict(c, variants=[])))
+        return [corpus_stream(ctx), ('G', cs)]
+
+    def search_cases(self, ctx, boost):
+        rng = ctx.rng('S')
+        return [self.gen_case(rng) for _ in range(sizes(ctx, 1200, 40000) * (3 if boost else 1))]
+
+    def oracle(self, ctx, case, impl, variants=()):
+        if impl.get('timeout') or 'calls' not in impl:
+            return None
+        c0 = impl['calls'][0]
+        fault = case['meta']['fault']
+        if c0.get('status') != 'ok':
+            if fault:
+                return ('C19/raises-instead:' + fault.replace(' ', '-'), 'the fault %r raises %s instead of being reported' % (fault, c0.get('exn')))
+            return None
+        log = c0['log']
+        if fault is None:
+            if log:
+                return ('C19/spurious:' + log[0][1].split(':')[0].replace(' ', '-')[:40], 'well-formed document reports %r' % (log[0][1][:120],))
+        else:
+            if not any(fault in m[1] and m[0] == 'error' for m in log):
+                return ('C19/missing:' + fault.replace(' ', '-'), 'fault not reported; diagnostics: %r' % ([m[1][:60] for m in log],))
+        if variants and all_ok(variants[0]) and variants[0]['calls'][0]['html'] != c0['html']:
+            return ('C19/callback-changes-output', 'HTML differs with and without callback')
+        return None
+
+
+class C02(Spec):
+    level_text = ('Partial. Proved as facts recomputed from the generated tables on every run: C02_star_height (every regular expression '
+                  'reachable in safe modes 1-7 has star height <= 1 except the first Block Attributes pattern, whose successor pattern is '
+                  'matched separately -- the deliberate split), C02_no_nullable_loop_body (no unbounded repetition over a body that can match '
+                  'the empty string, the (?:\\s*)? optionals being bounded), C02_loops_progress (the model matcher only iterates a repetition '
+                  'after progress or below its minimum: sre last_ptr rule, by construction of `loop`). Termination of the block loop for every '
+                  'input is NOT proved (macro-line expansion can grow the reader; the unchanged code does loop, see known findings), and '
+                  'running time is runtime behaviour: both are decided by pumped-input timing against the implementation and the '
+                  'model/implementation comparison of ok/timeout.')
+    rule = ('for every table regex, pumped strings (quantified sub-expressions repeated up to 2-8 KB) embedded as paragraphs, headers, '
+            'attribute lines and list items at safe modes 1-7, plus macro-recursion documents at modes 0 and 8; budget 10 s (quick) / 60 s '
+            '(thorough) per render; non-trivial = longer than 1 KB or defines a macro')
+    state_keys = []
+
+    def project(self, call):
+        return call.get('html') is not None
+
+    @property
+    def timeout(self):
+        return self._timeout
+    _timeout = 10
+
+    MACRO_LOOPS = ["{m}='{m} x'\n{m} foo", "{m}='{m|$1 x}'\n{m|a}", "{a}='{b}'\n{b}='{a}'\n{a} z", "{x} = 'foo\n\n{x} bar'\n{x}",
+                   "{a}='\\{b} y'\n{b}='{a} y'\n{b} z"]
+
+    def pumped(self, ctx, n_per):
+        import stream_regex as SR
+        rng = ctx.rng('P')
+        with open(os.path.join(common.COQ, 'Gen', 'regex_table.json')) as f:
+            tbl = json.load(f)
+        out = []
+        size = 2000 if ctx.quick else 8000
+        for name in sorted(tbl):
+            pat, fl = tbl[name]
+            for _ in range(n_per):
+                t = SR.text_for(pat, fl, rng, pump=size // 4)
+                t = t.replace('\r', ' ')[:size]
+                if len(t) < 200:
+                    continue
+                mode = rng.randint(1, 7)
+                c = H([call(t, safeMode=mode, reset=True, cb=True)])
+                c['meta'] = {'regex': name, 'len': len(t)}
+                out.append(c)
+        # hand-made pumps of adjacent quantifiers
+        N = 400 if ctx.quick else 1500
+        for src, tag in [('.a' + ' ' * N + '!', 'attr-blanks'), ('# x' + ' ' * N * 4 + 'y', 'header-blanks'),
+                         ('<' * (N // 2) + 'a' + '@b|x' * (N // 4), 'email-caption'), ('<a|' * N, 'url-caption'),
+                         ('[' * N, 'brackets'), ('*' * N + ' x', 'stars'), ('`' * N, 'ticks'), ('http://' + 'a/' * N, 'url'),
+                         ('&' + 'a' * N * 4, 'entity'), ('<!--' + '-' * N * 2, 'comment'), ('- ' + 'a:' * N, 'dl-colons'),
+                         (' ' * N * 4 + 'x', 'indent'), ('_a' * N, 'underscores'), ('{m|' + 'a|' * N + '}', 'macro-params')]:
+            for mode in (1, 5):
+                c = H([call(src, safeMode=mode, reset=True, cb=True)])
+                c['meta'] = {'regex': tag, 'len': len(src)}
+                out.append(c)
+        return out
+
+    def streams(self, ctx):
+        loops = [H([call(s, safeMode=0, reset=True, cb=True)]) for s in self.MACRO_LOOPS]
+        rng = ctx.rng('H')
+        return [corpus_stream(ctx), ('loops', loops), ('H', [gen.history(rng, 3) for _ in range(sizes(ctx, 300, 10000))])]
+
+    def search_cases(self, ctx, boost):
+        self._timeout = 10 if ctx.quick else 60
+        cases = self.pumped(ctx, 1 if ctx.quick else 4)
+        for s in self.MACRO_LOOPS:
+            for mode in (0, 8):
+                c = H([call(s, safeMode=mode, reset=True, cb=True)])
+                c['meta'] = {'regex': 'macro-loop', 'len': len(s)}
+                cases.append(c)
+        return cases
+
+    def oracle(self, ctx, case, impl, variants=()):
+        if impl.get('timeout'):
+            md = case.get('meta') or {}
+            return ('C02/stall:' + str(md.get('regex', 'unknown')), 'render of %d characters did not finish within %d s: %r...'
+                    % (md.get('len', 0), self._timeout, case['calls'][0]['src'][:60]))
+        return None
+
+
+PROPS = {'C01': C01(), 'C02': C02(), 'C03': C03(), 'C04': C04(), 'C05': C05(), 'C06': C06(), 'C07': C07(), 'C08': C08(),
+         'C09': C09(), 'C10': C10(), 'C11': C11(), 'C12': C12(), 'C13': C13(), 'C14': C14(), 'C15': C15(), 'C16': C16(),
+         'C17': C17(), 'C19': C19(), 'C20': C20()}
